@@ -25,51 +25,76 @@ def generic_form(ctx, config, U):
     where = b["span"]
     desc = "; ".join("[%s] %s" % (T.show_guard(g), T.show(t)) for g, k, t in outs)
     ctx.sample({"function": CONVERT, "summary": desc[:700]})
-    sel_same = [(k, t) for (g, k, t) in outs if g == ((same, True),)]
-    sel_diff = [(k, t) for (g, k, t) in outs if g == ((same, False),)]
-    ok = len(outs) == 2 and len(sel_same) == 1 and len(sel_diff) == 1
-    ctx.ob("convert-cases", config, ok, "convert is not a two-way split on `qty.unit() == to_unit`: " + desc, where)
+    sel_same = [(k, t) for (g, k, t) in outs if dict(g).get(same) is True]
+    sel_diff = [(g, k, t) for (g, k, t) in outs if dict(g).get(same) is False]
+    ok = len(sel_same) == 1 and len(sel_same) + len(sel_diff) == len(outs) and len(sel_diff) in (1, 2)
+    ctx.ob("convert-cases", config, ok, "convert does not split on `qty.unit() == to_unit` first: " + desc, where)
     if not ok:
         return
     # 1. same unit: the value unchanged
     ctx.ob("convert-same-unit", config, sel_same[0] == ("val", ("some", qty)),
            "with the target unit already set convert returns %s, expected Some(*qty)" % T.show(sel_same[0][1]), where)
-    # 2. otherwise: first matching row by find_map over the table
-    t = sel_diff[0][1]
-    ok = (t[0] == "app" and t[1] == ITER + "find_map" and len(t[3]) == 2 and t[3][0] == ("app", SLICE_ITER, None, (("field", self_, "mappings"),))
-          and t[3][1][0] == "closure")
-    ctx.ob("convert-find-map", config, ok, "other units: %s, expected self.mappings.iter().find_map(..)" % T.show(t), where)
+    # 2. otherwise: first matching row by find_map over the table — either the find_map value itself, or (a
+    #    search loop / `if let Some(v) = ..find_map(..) { return v }`) split on whether it found something
+    wrapped = False
+    t = None
+    if len(sel_diff) == 1 and sel_diff[0][1] == "val" and len(sel_diff[0][0]) == 1:
+        t = sel_diff[0][2]
+    elif len(sel_diff) == 2:
+        found = [x for x in sel_diff if len(x[0]) == 2 and x[2][0] == "unwrap"]
+        if len(found) == 1:
+            fm = found[0][2][1]
+            atom = T.canon(("isvar", fm, "Some"))
+            other = [x for x in sel_diff if x is not found[0]][0]
+            if dict(found[0][0]).get(atom) is True and dict(other[0]).get(atom) is False and len(other[0]) == 2 \
+                    and other[1] == "val" and T.canon(other[2]) == ("none",):
+                t, wrapped = fm, True
+    ok = (t is not None and t[0] == "app" and t[1] == ITER + "find_map" and len(t[3]) == 2
+          and t[3][0] == ("app", SLICE_ITER, None, (("field", self_, "mappings"),)) and t[3][1][0] in ("closure", "lam"))
+    ctx.ob("convert-find-map", config, ok, "other units: %s — expected the first `Some` of a row function over self.mappings in table order, None if there is none" % desc, where)
     if not ok:
         return
-    row = ("p", 100, "row")
+    row = T.P(100, "row")
     try:
         co = ev.summarize_closure(t[3][1], [row])
     except T.Unsupported as x:
         ctx.fail("convert-row-closure", config, "unsupported construct in the row closure: " + x.what, x.sp or where)
         return
-    c = one(co)
-    ok = c is not None and c[0] == "app" and c[1] == THEN and len(c[3]) == 2 and c[3][1][0] == "closure"
-    ctx.ob("convert-row-closure", config, ok, "row closure is %s, expected (cond).then(|| ..)" % (T.show(c) if c else co), where)
-    if not ok:
-        return
-    cond, k = c[3]
+    if wrapped:
+        # the row function of the search form returns Some(<value returned by convert>)
+        co = [(g, k, (x[1] if x[0] == "some" else x)) for (g, k, x) in co]
+    # the row closure decided over the truth table of its conditions: Some(new(amount * factor + offset, to_unit))
+    # exactly for `row.from == qty.unit() && row.to == to_unit`, None otherwise
     f0, f1, f2, f3 = (("field", row, i) for i in range(4))
     want_cond = ("and", ("==", f0, S.unit(qty)), ("==", f1, to))
-    atoms = T.bool_atoms(cond, T.bool_atoms(want_cond, []))
-    bad = None
-    for asg in T.assignments(atoms):
-        if T.bool_eval(cond, asg) != T.bool_eval(want_cond, asg):
-            bad = {T.show(a): v for a, v in asg.items()}
-            break
-    ctx.ob("convert-row-match", config, bad is None,
-           "row selection %s is not `row.from == qty.unit() && row.to == to_unit` (differs for %s)" % (T.show(cond), bad), where)
-    try:
-        ko = one(ev.summarize_closure(k, []))
-    except T.Unsupported as x:
-        ko = None
     want = S.new(S.R(("+", ("*", S.amount(qty), f2), f3)), to)
-    ok = ko is not None and S.match(ko, want) is None
-    ctx.ob("convert-affine-map", config, ok, "converted value is %s, expected new(amount * factor + offset, to_unit)" % (T.show(ko) if ko else "?"), where)
+    atoms = T.guard_atoms(co, extra=[want_cond])
+    bad_sel = bad_map = None
+    n_cases = 0
+    for asg in T.assignments(atoms):
+        sel = T.select(co, asg)
+        n_cases += 1
+        if len(sel) != 1 or sel[0][0] != "val":
+            bad_sel = "%d outcomes / diverging for %s" % (len(sel), {T.show(a): v for a, v in asg.items()})
+            break
+        r = T.canon(sel[0][1])
+        if T.bool_eval(want_cond, asg):
+            if r[0] != "some":
+                bad_sel = "a matching row is not selected (%s)" % T.show(r)
+                break
+            if S.match(r[1], want) is not None:
+                bad_map = T.show(r[1])
+        elif r[0] == "discard":
+            bad_sel = ("for a row that does not match, %s is computed and discarded: the affine map of every earlier table entry is evaluated "
+                       "(and can overflow in the decimal back-end) before the matching one is found" % T.show(r[1]))
+            break
+        elif r != ("none",):
+            bad_sel = "a row is selected (%s) although %s" % (T.show(r), {T.show(a): v for a, v in asg.items()})
+            break
+    ctx.ob("convert-row-match", config, bad_sel is None,
+           "row selection is not `row.from == qty.unit() && row.to == to_unit`: %s" % bad_sel, where)
+    ctx.ob("convert-affine-map", config, bad_sel is None and bad_map is None,
+           "converted value is %s, expected new(amount * factor + offset, to_unit)" % (bad_map or "?"), where)
 
 
 def temperature_table(ctx, config, w):
